@@ -103,6 +103,10 @@ def build(ctx):
     g.model('m_spatial_inertia', [('m', 'S'), ('r', 'V3'), ('I', 'M33')], 'M66',
             coq='SM.Model.C20_Inertia.spatial_inertia', module='Model.C20_Inertia',
             num_fn=lambda m, r, I: SpatialInertia(m, r, I).A, sampler=inertia_sampler)
+    # hand model of SpatialInertia + SpatialInertia (the 6x6 constructor forces float64, so it does not trace)
+    g.model('m_inertia_add', [('A', 'M66'), ('B', 'M66')], 'M66',
+            coq='SM.Model.C20_Inertia.inertia_add', module='Model.C20_Inertia',
+            num_fn=lambda A, B: (SpatialInertia(A) + SpatialInertia(B)).A)
     return g
 
 
@@ -447,6 +451,17 @@ def oracle(ctx):
         inp = np.r_[mass, c, I3.flatten()]
         chk('inertia-parallel-axis', JA, ref, sc, inp)
         chk('inertia-symmetric', JA, JA.T, sc, inp)
+        # inertias of joined bodies add (matrix sum of the two parallel-axis matrices)
+        mass2, c2, I32 = log_uniform(rng, 1e-6, 1e6), rand_unit(rng) * log_uniform(rng, 1e-6, 1e6), spd3(rng)
+        ref2 = inertia_np(mass2, c2, I32)
+        inp2 = np.r_[inp, mass2, c2, I32.flatten()]
+        try:
+            Js = J + SpatialInertia(mass2, c2, I32)
+            cls_is('inertia-add', Js, SpatialInertia, inp2)
+            chk('inertia-add', Js.A, ref + ref2, np.abs(ref) + np.abs(ref2), inp2)
+        except Exception as ex:  # noqa
+            ctx.fail(f'oracle:inertia-add:raises-{type(ex).__name__}', f"SpatialInertia + SpatialInertia raises {type(ex).__name__}: {ex}",
+                     {'inputs_hex': hexl(inp2)})
         acc = vec6(rng)
         fo = J * SpatialAcceleration(acc)
         cls_is('inertia-acc', fo, SpatialForce, np.r_[inp, acc])
